@@ -14,7 +14,8 @@ RULE = ("A case is (protocol version, response kind: state/energy/humidity/prope
         "changes before the corrupted exchange so that an accepted frame is visible. Parts 'nofix_*'/'fix_*' "
         "enumerate every position of every kind x substitutes (all 255 in thorough, 12 sampled in quick). Distinct = "
         "distinct (kind, position, value, fixup, version); non-trivial = the corrupted frame is invalid by the stated "
-        "rule (the others are counted as exempt_by_stated_rule and not asserted).")
+        "rule (the others are counted as exempt_by_stated_rule and not asserted)."
+        " Later additions: places 'twice', 'bad_bad_good', 'many_then_good'; the rejected frame as the first frame the object ever sees (twin-object oracle); other frame types; a report that embeds the image of a frame, with every value of its length byte; the same rejected answer in 3-5 consecutive polls followed by a clean poll; a corrupted-only poll up to 2 h after the last valid report.")
 ASSUMPTIONS = [
     "validity rule applied by the oracle is the one the property states (outer checksum; body check byte equals "
     "CRC-8 or additive checksum; property responses 0xB0/0xB1 exempt from the body check) - cases the rule cannot "
